@@ -420,7 +420,10 @@ def anisotropy_parameter(theta, intensity, theta_ranges=None, mode='reject'):
 
     # fit angular intensity distribution
     if mode == 'bound':
-        bounds = {'bounds': ([-1, -np.inf], [2, np.inf])}
+        # (with tight tolerances: the bounded solver approaches a solution
+        # lying on a bound slowly and otherwise stops up to ~1e-2 short)
+        bounds = {'bounds': ([-1, -np.inf], [2, np.inf]),
+                  'ftol': 1e-15, 'xtol': 1e-15, 'gtol': 1e-15}
     else:
         bounds = {}
     # the optimizer has absolute tolerances, so fit data of order unity
